@@ -140,7 +140,8 @@ class ScriptedBroker(AsyncBroker):
             await asyncio.sleep(self.kick_lat)
         if n in self.kick_fail or self.kick_fail == "all":
             sc.trace.add("kick_fail", OWNER.get(), task_id=message.task_id, n=n)
-            raise BackendDown("kick failed")
+            kind = (sc.spec.get("kick_exc") or ["BackendDown"])
+            raise _kick_exc(kind[n % len(kind)])
         if self.loopback:
             info = {"tok": message.task_id, "kind": "valid", "loop": True,
                     "ackable": bool(sc.spec.get("loop_ackable")), "ack_async": False, "ack_lat": 0}
@@ -161,8 +162,8 @@ class ScriptedBroker(AsyncBroker):
             info = self.q.popleft()
             payload = info["payload"]
             if isinstance(payload, (bytes, bytearray)):
-                # make a fresh bytes object so identity is unique per delivery
-                payload = bytes(bytearray(payload))
+                # a fresh object so that identity is unique per delivery (even for b"")
+                payload = TBytes(payload)
             if info.get("ackable"):
                 payload = AckableMessage(data=payload, ack=make_ack(sc, info))
             sc.keep.append(payload)
@@ -171,21 +172,68 @@ class ScriptedBroker(AsyncBroker):
             yield payload
 
 
+class TBytes(bytes):
+    """A bytes object with its own identity (plain equal bytes objects may be shared / cached, e.g. b"")."""
+
+
+class _Aw:
+    """An awaitable that is not a coroutine object (AckableMessage.ack may return any Awaitable)."""
+
+    def __init__(self, coro: Any) -> None:
+        self.coro = coro
+
+    def __await__(self) -> Any:
+        return self.coro.__await__()
+
+
+class AckBoom(Exception):
+    pass
+
+
+def _kick_exc(name: str) -> BaseException:
+    import taskiq.exceptions as te
+
+    if name == "BackendDown":
+        return BackendDown("kick failed")
+    if name == "ConnectionError":
+        return ConnectionError("kick failed")
+    if name == "UnknownTaskError":
+        return te.UnknownTaskError(task_name="x")
+    if name == "TaskiqResultTimeoutError":
+        return te.TaskiqResultTimeoutError(timeout=1.0)
+    return getattr(te, name)()
+
+
 def make_ack(sc: Scenario, info: Dict[str, Any]) -> Any:
     d = info["d"]
     lat = info.get("ack_lat", 0)
-    if info.get("ack_async"):
-        async def ack() -> None:
-            sc.trace.add("ack", d)
-            if lat == "y":
-                await asyncio.sleep(0)
-            elif lat:
-                await asyncio.sleep(lat)
-            sc.trace.add("ack_done", d)
+    kind = info.get("ack_kind") or ("async" if info.get("ack_async") else "sync")
+    boom = info.get("ack_raise")
+
+    async def _body() -> None:
+        sc.trace.add("ack", d)
+        if lat == "y":
+            await asyncio.sleep(0)
+        elif lat:
+            await asyncio.sleep(lat)
+        sc.trace.add("ack_done", d)
+        if boom:
+            raise AckBoom(str(d))
+
+    if kind == "async":
+        ack: Any = _body
+    elif kind == "awaitable":
+        def ack() -> Any:  # returns an object with __await__ (not a coroutine)
+            return _Aw(_body())
+    elif kind == "task":
+        def ack() -> Any:  # returns an already scheduled Task / Future
+            return asyncio.ensure_future(_body())
     else:
-        def ack() -> None:  # type: ignore[misc]
+        def ack() -> None:
             sc.trace.add("ack", d)
             sc.trace.add("ack_done", d)
+            if boom:
+                raise AckBoom(str(d))
     return ack
 
 
@@ -221,6 +269,7 @@ class RecordingBackend(AsyncResultBackend):  # type: ignore[type-arg]
         self.sc = sc
         self.lat = sc.spec.get("backend", {}).get("lat", 0)
         self.fail = set(sc.spec.get("backend", {}).get("fail", []))
+        self.fail_cancel = set(sc.spec.get("backend", {}).get("fail_cancel", []))
         self.store: Dict[str, Any] = {}
 
     async def set_result(self, task_id: str, result: Any) -> None:
@@ -239,6 +288,9 @@ class RecordingBackend(AsyncResultBackend):  # type: ignore[type-arg]
         elif self.lat:
             await asyncio.sleep(self.lat)
         tok = sc.deliveries[d]["tok"] if d is not None else None
+        if tok in self.fail_cancel:
+            sc.trace.add("set_fail", d, exc="CancelledError")
+            raise asyncio.CancelledError("backend")
         if tok in self.fail or "*" in self.fail:
             sc.trace.add("set_fail", d)
             raise BackendDown("backend down")
@@ -303,6 +355,8 @@ def _make_hook(sc: Scenario, i: int, hook: str, hs: Dict[str, Any]) -> Any:
     def _post(message: Any) -> Any:
         if rz == "all" or (isinstance(rz, list) and message.task_id in rz):
             sc.trace.add("mw_raise:" + hook, OWNER.get(), mw=i, tok=message.task_id)
+            if hs.get("raise_exc") == "CancelledError":
+                raise asyncio.CancelledError(f"{hook}{i}")
             raise HookBoom(f"{hook}{i}")
         if returns_msg:
             if replace:
@@ -312,7 +366,7 @@ def _make_hook(sc: Scenario, i: int, hook: str, hs: Dict[str, Any]) -> Any:
             return message
         return None
 
-    if hs.get("async"):
+    if hs.get("async") or hs.get("style") in ("awaitable", "task"):
         async def ahook(self: Any, message: Any, *rest: Any) -> Any:
             _pre(message, rest)
             if lat == "y":
@@ -321,6 +375,16 @@ def _make_hook(sc: Scenario, i: int, hook: str, hs: Dict[str, Any]) -> Any:
                 await asyncio.sleep(lat)
             return _post(message)
         ahook.__name__ = hook
+        if hs.get("style") == "awaitable":
+            def whook(self: Any, message: Any, *rest: Any) -> Any:  # plain function returning an awaitable object
+                return _Aw(ahook(self, message, *rest))
+            whook.__name__ = hook
+            return whook
+        if hs.get("style") == "task":
+            def thook(self: Any, message: Any, *rest: Any) -> Any:  # plain function returning a Task
+                return asyncio.ensure_future(ahook(self, message, *rest))
+            thook.__name__ = hook
+            return thook
         return ahook
 
     def shook(self: Any, message: Any, *rest: Any) -> Any:
@@ -434,6 +498,8 @@ def build_functions(sc: Scenario, broker: AsyncBroker) -> None:
         f = ns[fn]
         f.__module__ = "mon.worker_harness"
         broker.register_task(f, task_name=tname, **ts.get("labels", {}))
+    for orig, repl in spec.get("overrides", {}).items():
+        broker.dependency_overrides[ns[orig]] = ns[repl]
 
 
 async def _dep_lat(lat: Any) -> None:
@@ -485,6 +551,15 @@ async def _run_beh(sc: Scenario, tok: str, args: Any, kwargs: Any, depvals: Any,
             else:
                 await asyncio.sleep(step)
     except asyncio.CancelledError:
+        cleanup = beh.get("cleanup")
+        if cleanup:
+            # a task function that needs time to react to its cancellation (finally: await ...)
+            sc.trace.add("task_cancelled", d)
+            for step in cleanup:
+                if step == "y":
+                    await asyncio.sleep(0)
+                else:
+                    await asyncio.sleep(step)
         sc.trace.add("task_end", d, how="cancelled")
         raise
     return _outcome(sc, d, tok, beh, depvals, echo)
@@ -497,6 +572,27 @@ def _run_beh_sync(sc: Scenario, tok: str, args: Any, kwargs: Any, depvals: Any, 
                  echo=echo, deps=safe_json(depvals), thread=True)
     if beh.get("real_sleep"):
         _time.sleep(beh["real_sleep"])
+    hold = beh.get("sync_hold")
+    if hold:
+        # block this executor thread for `hold` *virtual* seconds: the loop parks the in-flight
+        # executor future (clock keeps advancing) and releases the gate from a virtual timer
+        loop = sc.trace.loop
+        gate = threading.Event()
+        sc.keep.append(gate)
+
+        def _unpark() -> None:
+            loop._v_inflight += 1
+            gate.set()
+
+        def _park() -> None:
+            loop._v_inflight -= 1
+            loop.call_later(hold, _unpark)
+
+        if loop is not None and hasattr(loop, "_v_inflight"):
+            loop.call_soon_threadsafe(_park)
+            gate.wait(30)
+        else:
+            _time.sleep(min(hold, 0.2))
     return _outcome(sc, d, tok, beh, depvals, echo)
 
 
@@ -511,7 +607,7 @@ def build_payload(sc: Scenario, broker: AsyncBroker, m: Dict[str, Any], tok: str
             b"\xff\xfe not json",
             b"[1, 2, 3]",
             b'{"task_id": "x"}',
-            b"   ",  # (not b"": identical empty bytes objects would share one identity)
+            b"",
             b'{"task_id": "%s", "task_name": "t_async", "labels": {"a": "q"}, '
             b'"labels_types": {"a": 2}, "args": [], "kwargs": {}}' % tok.encode(),
             b"-1", b"-2", b"null", b"{}", b"00", b"true", b'"-1"', b"-1 ",
@@ -522,6 +618,13 @@ def build_payload(sc: Scenario, broker: AsyncBroker, m: Dict[str, Any], tok: str
     if m.get("timeout") is not None:
         labels["timeout"] = m["timeout"]
     tname = "no_such_task" if kind == "unknown" else m.get("task", "t_async")
+    if m.get("raw_labels"):
+        # a message from a producer that does not send labels_types (hand-built / older client)
+        from taskiq.message import TaskiqMessage
+
+        raw = TaskiqMessage(task_id=tok, task_name=tname, labels=labels, labels_types=None,
+                            args=[tok] + list(m.get("args", [])), kwargs=dict(m.get("kwargs", {})))
+        return broker.formatter.dumps(raw).message
     kicker = AsyncKicker(tname, broker, labels).with_task_id(tok)
     msg = kicker._prepare_message(tok, *m.get("args", []), **m.get("kwargs", {}))
     return broker.formatter.dumps(msg).message
@@ -593,6 +696,7 @@ def run_worker(spec: Dict[str, Any], real: bool = False) -> RunResult:
             info = {
                 "tok": tok, "kind": m.get("kind", "valid"), "ackable": m.get("ackable", False),
                 "ack_async": m.get("ack_async", False), "ack_lat": m.get("ack_lat", 0),
+                "ack_kind": m.get("ack_kind"), "ack_raise": m.get("ack_raise", False),
                 "at": m.get("at", 0.0), "task": m.get("task", "t_async"),
             }
             broker.new_delivery(info)
@@ -617,8 +721,10 @@ def run_worker(spec: Dict[str, Any], real: bool = False) -> RunResult:
                     await AsyncKicker(s.get("task", "t_async"), broker, labels).with_task_id(tok).kiq(tok)
                     sc.trace.add("send_ok", None, tok=tok)
                 except BaseException as exc:  # noqa: BLE001
+                    from taskiq.exceptions import SendTaskError
+
                     sc.trace.add("send_err", None, tok=tok, exc=type(exc).__name__,
-                                 cause=type(exc.__cause__).__name__)
+                                 cause=type(exc.__cause__).__name__, is_send_error=isinstance(exc, SendTaskError))
             await asyncio.gather(*[_send(s) for s in sends])
         ack = AcknowledgeType(cfg.get("ack", "when_saved"))
         MonReceiver.sc = sc
@@ -696,6 +802,9 @@ def run_worker(spec: Dict[str, Any], real: bool = False) -> RunResult:
         rr.outcome = "watchdog"
         rr.err = str(exc)
     finally:
+        for g in sc.keep:
+            if isinstance(g, threading.Event):
+                g.set()  # release executor threads still parked on a virtual-time gate
         executor.shutdown(wait=False, cancel_futures=True)
     rr.trace = sc.trace.ev
     return rr
